@@ -355,6 +355,7 @@ func checkC11(c *mc.Ctx) {
 		}
 		return al[:3]
 	}
+	nExact := int64(0)
 	for _, sh := range afShapes() {
 		for ind := 0; ind < 8; ind++ {
 			a := afShape(sh, ind)
@@ -363,6 +364,24 @@ func checkC11(c *mc.Ctx) {
 			for st := 1; st <= 183; st++ {
 				add(a, st, true, fmt.Sprintf("stuffing=%d shape=%d", st, sh), ind == 0 && st%7 == 0)
 				add(a, st, false, fmt.Sprintf("stuffing=%d shape=%d afc=10", st, sh), true)
+			}
+			// no stuffing at all: transport private data sized so that the last part of the field - whichever part that is in
+			// this shape - ends on the last byte of the packet (afc=10), or one byte before it (afc=11, one payload byte)
+			if ind == 0 || ind == 7 {
+				for _, payload := range []bool{false, true} {
+					b := afShape(sh, ind)
+					b.HasPrivate, b.Private = true, nil
+					b.Stuffing = 0
+					room := 184 - b.Size()
+					if payload {
+						room--
+					}
+					if room >= 0 {
+						b.Private = bytes.Repeat([]byte{0xa7}, room)
+						add(b, 0, payload, fmt.Sprintf("exact-fill shape=%d ind=%d payload=%v", sh, ind, payload), true)
+						nExact++
+					}
+				}
 			}
 			if ind != 0 && ind != 7 {
 				continue
@@ -454,7 +473,8 @@ func checkC11(c *mc.Ctx) {
 	}
 	c.Ev.AddScenario(mc.Scenario{Name: "re-emit whole streams", SpaceSize: nre, Executed: nre, Exhaustive: true, Bound: "every packet of 4 multi-PID streams (all adaptation-field kinds), re-emitted after all packets were read"})
 	c.Ev.Sample(map[string]any{"what": jobs[len(jobs)/2].what, "bytes": mc.Hex(jobs[len(jobs)/2].p.Encode()[:24])})
-	c.Ev.Require("af-length-0", "afc-10", "stream-reemitted", "short-packet-padded")
+	c.Ev.Class("adaptation-field-ends-on-last-byte", nExact)
+	c.Ev.Require("af-length-0", "afc-10", "stream-reemitted", "short-packet-padded", "adaptation-field-ends-on-last-byte")
 }
 
 // c11Write encodes a packet whose payload (and private data) are handed over the way a zero-copy caller does - as
